@@ -18,7 +18,7 @@ func clusterAlphabet(nodes int) []core.VEvent {
 	var ev []core.VEvent
 	ev = append(ev, core.VEvent{K: "LA", N: 1}, core.VEvent{K: "LA", N: 1, CP: true}, core.VEvent{K: "LA", N: 2}, core.VEvent{K: "LA", N: 2, CP: true}, core.VEvent{K: "LA", N: 1, Fail: true}, core.VEvent{K: "LA", N: 2, CP2: true})
 	for n := 0; n < nodes; n++ {
-		ev = append(ev, core.VEvent{K: "RP", Node: n}, core.VEvent{K: "RP", Node: n, N: 1}, core.VEvent{K: "RP", Node: n, Split: true}, core.VEvent{K: "RP", Node: n, N: 1, Fail: true})
+		ev = append(ev, core.VEvent{K: "RP", Node: n}, core.VEvent{K: "RP", Node: n, N: 1}, core.VEvent{K: "RP", Node: n, Split: true}, core.VEvent{K: "RP", Node: n, N: 1, Fail: true}, core.VEvent{K: "RP", Node: n, Lost: true})
 	}
 	for n := 0; n < nodes; n++ {
 		ev = append(ev, core.VEvent{K: "LC", Node: n})
